@@ -32,6 +32,19 @@ var advNames = []string{
 	"1", "01", "1.0", "1e0", "+1", "0x1", "true", "True", "NULL", "nil", "undefined",
 }
 
+// prefixNames: names that share a long prefix and differ only near the end, with
+// lengths around the powers of two a fixed-size buffer would plausibly have.
+func prefixNames() []string {
+	var out []string
+	for _, L := range []int{63, 64, 65, 127, 128, 129, 239, 240, 241, 248, 255, 256, 257, 511, 512, 513, 1023, 1024, 1025} {
+		b := []byte(strings.Repeat("prefix-0123456789-", L/18+1))[:L]
+		out = append(out, string(b))
+		b[L-1] = '#'
+		out = append(out, string(b))
+	}
+	return out
+}
+
 func runC16(env *Env, rc *RunCtx) {
 	t := rc.CaseTape
 	sys := env.SysTier()
@@ -47,6 +60,13 @@ func runC16(env *Env, rc *RunCtx) {
 	}
 	if t.Bool(1, 6) {
 		pool = append(pool, long64k, long64k+"x")
+	}
+	if t.Bool(1, 4) {
+		pn := prefixNames()
+		for i := 0; i < 8; i++ {
+			pool = append(pool, pn[t.Choose(len(pn))])
+		}
+		rc.Count("probe_names_sharing_a_long_prefix", 1)
 	}
 	extra := []int{0, 10, 60, 120, 260}[t.Choose(5)]
 	for i := 0; i < extra; i++ {
